@@ -161,6 +161,8 @@ NEAR_MISSES = [
     # broadcasts to the shape, their joint broadcast does not reach it)
     "extra_axis_binop", "extra_axis_scalar_mul", "extra_axis_where", "extra_axis_call",
     "extra_axis_unit_row", "extra_axis_reduce",
+    # a reduction variable the summand does not use (multiplies a sum by its trip count)
+    "reduce_extra_unused_var", "reduce_diag",
 ]
 
 
@@ -470,6 +472,12 @@ def build(case: dict[str, Any]) -> dict[str, Any]:
         elif nm == "extra_axis_unit_row":
             u = _operand(pt, env, "u", "arr", d, [1, 3], rng, "ids")
             il = mk(p.Product((p.Variable("u")[0, i1], 2)), {"u": u}, (3, 3))
+        elif nm == "reduce_extra_unused_var":
+            il = mk(Reduce(V[r0], SumOp(), constantdict({"_r0": (0, 3), "_r1": (0, 2)})),
+                    {"v": v}, ())
+        elif nm == "reduce_diag":
+            # trace: one reduction variable in two subscript positions
+            il = mk(Reduce(A[r0, r0], SumOp(), constantdict({"_r0": (0, 3)})), {"a": a}, ())
         elif nm == "extra_axis_reduce":
             # out[_0, _1] = sum_r a[_1, _r0]: np.sum(a, axis=1) has one axis less
             il = mk(Reduce(A[i1, r0], SumOp(), constantdict({"_r0": (0, 3)})), {"a": a}, (2, 3))
